@@ -140,6 +140,7 @@ func verifC09Allocator() memory.Allocator  { return nil }
 func verifC09Reset() {
 	verifResetIPC()
 	verifSchemas = nil
+	verifC09SchemaNo = 0
 	verifC09SB, verifC09SBd, verifC09BB, verifC09BBd, verifC09NB, verifC09NBd, verifC09Sets = nil, nil, nil, nil, nil, nil, nil
 }
 
@@ -178,8 +179,15 @@ type verifC09Method struct {
 
 var verifC09IntType = reflect.TypeOf(0)
 
+// Every registered schema is a distinct CONTENT: the column is the same for every
+// method (so structural fingerprints that ignore metadata collide) and a schema-level
+// metadata entry names the method and role it was registered for.
+var verifC09SchemaNo int
+
 func verifC09Schema(tag string) *arrow.Schema {
-	return arrow.NewSchema([]arrow.Field{{Name: tag, Type: &arrow.Int64Type{}}}, nil)
+	verifC09SchemaNo++
+	md := arrow.NewMetadata([]string{"registered_as"}, []string{tag + string(rune('0'+verifC09SchemaNo))})
+	return arrow.NewSchema([]arrow.Field{{Name: "x", Type: &arrow.Int64Type{}}}, &md)
 }
 
 func verifC09Build(ms []verifC09Method, order []int, service, serverID string, pvSet bool) *Server {
@@ -226,7 +234,7 @@ func verifC09Build(ms []verifC09Method, order []int, service, serverID string, p
 //verif:stub crypto/sha256.New = verifC09Sha256New
 //verif:stub encoding/hex.EncodeToString = verifC09Hex
 //verif:stub github.com/Query-farm/vgi-rpc-go/vgirpc.defaultAllocator = verifC09Allocator
-//verif:bound 1..3 registered methods with distinct names that are ANY byte strings of 1..2 bytes, one of them (thorough: every method of 1..2-method surfaces) of ANY method kind (unary, producer, exchange, dynamic) with or without result type, header flag, header schema and output schema, the others of a fixed unary / producer-with-header shape; every schema a distinct identity; service name ANY 0..2 bytes, server id and protocol version set or not (on 1-method surfaces; ANY 1-byte service name otherwise); Server.ProtocolHash and the second-server comparison on 1..2-method surfaces; ALL map iteration orders (a symbolic permutation, which is all that registration order can influence) compared against a second server registered in the opposite order; column builders are ghost columns, schema serialisation is an injective opaque encoding, SHA-256 is an ideal (injective) hash and hex is the identity
+//verif:bound 1..3 registered methods with distinct names that are ANY byte strings of 1..2 bytes, one of them (thorough: every method of 1..2-method surfaces) of ANY method kind (unary, producer, exchange, dynamic) with or without result type, header flag, header schema and output schema, the others of a fixed unary / producer-with-header shape; every registered schema a distinct content that differs from the others only in schema-level metadata (same columns); service name ANY 0..2 bytes, server id and protocol version set or not (on 1-method surfaces; ANY 1-byte service name otherwise); Server.ProtocolHash and the second-server comparison on 1..2-method surfaces; ALL map iteration orders (a symbolic permutation, which is all that registration order can influence) compared against a second server registered in the opposite order; column builders are ghost columns, schema serialisation is an injective opaque encoding, SHA-256 is an ideal (injective) hash and hex is the identity
 func verifH_C09_describe_surface() {
 	verifC09Reset()
 	n := 1 + verifChoice("methods", 3)
@@ -327,16 +335,16 @@ func verifH_C09_describe_surface() {
 		verifAssert(!hasHdr.nulls[i] && hasHdr.bools[i] == m.hasHeader, "has_header is the registered flag")
 		verifAssert(isEx.nulls[i], "is_exchange is null on the wire")
 		ps, perr := verifDeserializeSchema(params.bins[i])
-		verifAssert(perr == nil && ps == m.params, "params_schema_ipc decodes to the registered parameter schema")
+		verifAssert(perr == nil && verifSameSchema(ps, m.params), "params_schema_ipc decodes to the registered parameter schema")
 		rs, rerr := verifDeserializeSchema(result.bins[i])
 		want := m.result
 		if m.output != nil {
 			want = m.output
 		}
-		verifAssert(rerr == nil && rs == want, "result_schema_ipc decodes to the registered output schema, or the result schema when there is none")
+		verifAssert(rerr == nil && verifSameSchema(rs, want), "result_schema_ipc decodes to the registered output schema, or the result schema when there is none")
 		if m.hasHeader && m.hdrSchema {
 			hs, herr := verifDeserializeSchema(header.bins[i])
-			verifAssert(!header.nulls[i] && herr == nil && hs == m.header, "header_schema_ipc decodes to the registered header schema")
+			verifAssert(!header.nulls[i] && herr == nil && verifSameSchema(hs, m.header), "header_schema_ipc decodes to the registered header schema")
 		} else {
 			verifAssert(header.nulls[i], "header_schema_ipc is null without a header schema")
 		}
